@@ -112,6 +112,12 @@ def check_built(r, k, mask):
             r.trans += 2
             if st3 == 'ok':
                 wf_check(r, a2, k, 'latter_map_to_accessor', case)
+            # a latter map is a dict of successor lists; their order carries no meaning
+            for tag, f in (('reversed', lambda b: list(b)[::-1]), ('rotated', lambda b: list(b)[1:] + list(b)[:1])):
+                st3, a2, _ = brun(dsw.latter_map_to_accessor, {a: f(b) for a, b in lm.items()}, k)
+                r.trans += 1
+                if st3 == 'ok':
+                    wf_check(r, a2, k, 'latter_map_to_accessor-%s-lists' % tag, case)
             for t in (2, 3):
                 st3, a3, _ = brun(dsw.latter_map_to_accessor, lm, k, threshold=t)
                 r.trans += 1
